@@ -14,8 +14,8 @@ open ZV.Contracts
     exactly the two modelled hash types exist with 32-byte digests. A changed constant that leaves this true passes;
     one that breaks it fails the build. -/
 theorem production_constants_in_domain :
-    0 < ZV.Gen.CostPerFusionUnitC ∧ 0 < ZV.Gen.StakeTimeUnitSec ∧ ZV.Gen.StakeTimeMinSec ≤ ZV.Gen.StakeTimeMaxSec ∧
-    ZV.Gen.StakeTimeMaxSec / ZV.Gen.StakeTimeUnitSec < ZV.Gen.LiquidityStakeWeights.length ∧
+    0 < ZV.Gen.CostPerFusionUnitC ∧ 0 < ZV.Gen.CtStakeTimeUnitSec ∧ ZV.Gen.StakeTimeMinSec ≤ ZV.Gen.StakeTimeMaxSec ∧
+    ZV.Gen.StakeTimeMaxSec / ZV.Gen.CtStakeTimeUnitSec < ZV.Gen.CtLiquidityStakeWeights.length ∧
     0 < ZV.Gen.PillarEpochLockTime + ZV.Gen.PillarEpochRevokeTime ∧
     0 < ZV.Gen.SentinelLockTimeWindow + ZV.Gen.SentinelRevokeTimeWindow ∧
     ZV.Gen.NumHashTypes = 2 ∧ digestSize ZV.Gen.HashTypeSHA3 = some 32 ∧ digestSize ZV.Gen.HashTypeSHA256 = some 32 ∧
